@@ -149,7 +149,7 @@ structure DOutInv (P : DownParams) (st : LoopSt) : Prop where
   curr : recvBy downIndex st.out st.dstIdx + slotsNum st.curSlots = st.curNum
   later : ∀ j, st.dstIdx < j → recvBy downIndex st.out j = 0
   shape : ∀ ms ∈ st.out, ∃ j, j < P.dstMasterNum ∧ ms.mm.dstChunk = j / 2 ∧
-    ms.mm.dstPart = j % 2 ∧ ms.mm.srcPart < 2 ∧ ms.mm.epoch = P.epoch
+    ms.mm.dstPart = j % 2 ∧ ms.mm.srcPart < 2 ∧ ms.mm.epoch = P.epoch ∧ compact ms.ranges = ms.ranges
 
 structure DStInv (P : DownParams) (st : LoopSt) : Prop where
   le : st.dstIdx ≤ P.dstMasterNum
@@ -159,7 +159,7 @@ structure DStInv (P : DownParams) (st : LoopSt) : Prop where
   out : DOutInv P st
 
 theorem dOutInv_emit_done {P : DownParams} {st : LoopSt} (h : DOutInv P st) (hlt : st.dstIdx < P.dstMasterNum)
-    (sc sp : Nat) (hsp : sp < 2) (ranges : RangeList)
+    (sc sp : Nat) (hsp : sp < 2) (ranges : RangeList) (hfx : compact ranges = ranges)
     (hcount : recvBy downIndex st.out st.dstIdx + slotsNum ranges = P.dneed st.dstIdx) :
     DOutInv P ⟨st.dstIdx + 1, [], 0, st.out ++ [P.task sc sp st.dstIdx ranges]⟩ := by
   refine ⟨?_, ?_, ?_, ?_⟩
@@ -183,10 +183,10 @@ theorem dOutInv_emit_done {P : DownParams} {st : LoopSt} (h : DOutInv P st) (hlt
     rcases List.mem_append.mp hms with hms | hms
     · exact h.shape ms hms
     · simp only [List.mem_singleton] at hms; subst hms
-      exact ⟨st.dstIdx, hlt, rfl, rfl, hsp, rfl⟩
+      exact ⟨st.dstIdx, hlt, rfl, rfl, hsp, rfl, hfx⟩
 
 theorem dOutInv_emit_open {P : DownParams} {st : LoopSt} (h : DOutInv P st) (hlt : st.dstIdx < P.dstMasterNum)
-    (sc sp : Nat) (hsp : sp < 2) (ranges : RangeList) (curNum' : Nat)
+    (sc sp : Nat) (hsp : sp < 2) (ranges : RangeList) (hfx : compact ranges = ranges) (curNum' : Nat)
     (hcount : recvBy downIndex st.out st.dstIdx + slotsNum ranges = curNum') :
     DOutInv P ⟨st.dstIdx, [], curNum', st.out ++ [P.task sc sp st.dstIdx ranges]⟩ := by
   refine ⟨?_, ?_, ?_, ?_⟩
@@ -209,6 +209,6 @@ theorem dOutInv_emit_open {P : DownParams} {st : LoopSt} (h : DOutInv P st) (hlt
     rcases List.mem_append.mp hms with hms | hms
     · exact h.shape ms hms
     · simp only [List.mem_singleton] at hms; subst hms
-      exact ⟨st.dstIdx, hlt, rfl, rfl, hsp, rfl⟩
+      exact ⟨st.dstIdx, hlt, rfl, rfl, hsp, rfl, hfx⟩
 
 end Um.Broker
